@@ -1,5 +1,6 @@
 """C11 — files on disk equal the last generated set under I/O faults (DESIGN.md §6 C11)."""
 import collections
+import concurrent.futures
 
 
 def parse(line):
@@ -11,102 +12,147 @@ def strip_obs(o):
     return ";".join("|".join(s.split("|")[:4]) for s in o.split(";"))
 
 
+def run_chunk(ctx, args):
+    """One harness run + Lean judge + Lean model; returns a summary (keeps memory bounded)."""
+    res = {"evaluations": 0, "validated": 0, "diffs": 0, "nfail": 0, "findings": [], "brokens": [],
+           "classes": collections.Counter(), "families": collections.Counter(), "outcomes": collections.Counter(),
+           "distinct": set(), "nontrivial": set(), "samples": [], "gen_paths": 0, "harness_errors": 0,
+           "ran": False}
+    lines = ctx.harness(args)
+    if lines is None:
+        return res
+    res["ran"] = True
+    scen, obs, fam = [], [], []
+    for l in lines:
+        if l.startswith("P "):
+            res["findings"].append(("C11:generated-path-outside-managed-folders",
+                                    f"the real generator produced {l[2:]} which is not directly inside one of ConfigFolders",
+                                    {"path": l[2:]}))
+        elif l.startswith("G "):
+            res["gen_paths"] = int(l[2:])
+        elif l.startswith("X "):
+            res["harness_errors"] += 1
+        else:
+            parts = parse(l)
+            if "M" in parts and "O" in parts:
+                scen.append(parts["M"])
+                obs.append(parts["O"])
+                fam.append(parts.get("F", "?"))
+    res["evaluations"] = len(scen)
+    # the property itself, evaluated by the Lean judge on the disk the real code left behind
+    verdicts = ctx.driver("judge", [m + " obs=" + o for m, o in zip(scen, obs)])
+    seen_sig = set()
+    for m, o, v in zip(scen, obs, verdicts):
+        if v != "ok":
+            res["nfail"] += 1
+            clause = v.split(" ")[1] if v.startswith("fail ") else v
+            if clause not in seen_sig:      # the shortest scenario per clause is the most readable replay
+                seen_sig.add(clause)
+                res["findings"].append((f"C11:{clause}", f"real file manager violates the property: {v}",
+                                        {"scenario": m, "observed": o, "verdict": v,
+                                         "replay_cmd": "go run ./harness/cmd/c11 -replay '<scenario>' (see notes/C11.md)"}))
+    # correspondence: the Lean model on the same scenario
+    outs = ctx.driver("model", scen)
+    for m, o, out, f in zip(scen, obs, outs, fam):
+        if strip_obs(o) != out:
+            res["diffs"] += 1
+            if len(res["brokens"]) < 3:
+                res["brokens"].append((f"model and implementation disagree on [{m}]: impl {strip_obs(o)} / model {out}",
+                                       {"scenario": m, "impl": o, "model": out}))
+        else:
+            res["validated"] += 1
+        family, cls = (f.split("/", 1) + ["?"])[:2]
+        res["families"][family] += 1
+        res["classes"][cls] += 1
+        for so in o.split(";"):
+            res["outcomes"][so.split("|", 1)[0]] += 1
+        h = hash(m)
+        if h not in res["distinct"]:
+            res["distinct"].add(h)
+            if "fail|" in o or "crash|" in o:
+                res["nontrivial"].add(h)
+    if scen:
+        res["samples"] = [scen[0] + " obs=" + obs[0], scen[-1] + " obs=" + obs[-1]]
+    return res
+
+
 def run(ctx):
     ctx.prepare()
     ctx.obligations("NGF.Props.C11")
     if ctx.tier == "thorough":
         ctx.leanchecker("NGF.Props.C11")
 
-    if ctx.tier == "quick":
-        chunks = [(0, 20, 60)]
+    import os
+    common = ["-seed", ctx.seed, "-sets", 3]
+    corpus_file = os.path.join(os.path.dirname(os.path.dirname(os.path.abspath(__file__))), "corpus", "C11",
+                               "regressions.txt")
+    if ctx.replay_in:
+        # ./check C11 --replay <file written by an earlier run>: rerun exactly that scenario on the real code
+        import json
+        rep = json.load(open(ctx.replay_in))
+        scenario = (rep.get("input") or {}).get("scenario")
+        if not scenario:
+            for b in rep.get("broken", []):
+                scenario = scenario or ((b.get("replay") or {}).get("scenario"))
+        chunks = [["-replay", scenario]] if scenario else [["-replayfile", corpus_file]]
+        par = 1
+    elif ctx.tier == "quick":
+        # all single faults and all crash points for 20 sequences + 60 random double faults each
+        chunks = [["-replayfile", corpus_file], common + ["-from", 0, "-n", 20, "-doubles", 60, "-maxfiles", 4, "-workers", 8]]
+        par = 1
     else:
-        chunks = [(i, 10, -1) for i in range(0, 200, 10)]
+        # all single and ALL double faults (+ crash points) for 200 sequences of 3 sets; the sequences
+        # whose sets come from the real generator (8+ files each) get all singles and 1500 doubles each
+        chunks = [["-replayfile", corpus_file]] + [common + ["-from", i, "-n", 10, "-doubles", -1, "-gendoubles", 1500, "-maxfiles", 2,
+                            "-workers", 4] for i in range(0, 200, 10)]
+        par = 4
 
-    stats = collections.Counter()
-    classes = collections.Counter()
-    families = collections.Counter()
-    outcomes = collections.Counter()
-    samples, distinct, nontrivial = [], set(), set()
-    diffs = validated = evaluations = 0
+    tot = collections.Counter()
+    classes, families, outcomes = collections.Counter(), collections.Counter(), collections.Counter()
+    distinct, nontrivial, samples = set(), set(), []
     gen_paths = 0
-    stop = False
-    for frm, n, doubles in chunks:
-        if stop:
-            break
-        lines = ctx.harness(["-seed", ctx.seed, "-from", frm, "-n", n, "-doubles", doubles,
-                             "-sets", 3, "-maxfiles", 4 if ctx.tier == "quick" else 3, "-workers", 8])
-        if lines is None:
-            break
-        if getattr(ctx, "harness_rc", 0) != 0:
-            ctx.broken(f"harness exited {ctx.harness_rc}: {ctx.harness_err[-300:]}")
-        scen, obs, fam = [], [], []
-        for l in lines:
-            if l.startswith("P "):
-                ctx.finding("C11:generated-path-outside-managed-folders",
-                            f"the real generator produced {l[2:]} which is not directly inside one of ConfigFolders",
-                            {"path": l[2:]})
-                continue
-            if l.startswith("G "):
-                gen_paths = max(gen_paths, int(l[2:]))
-                continue
-            if l.startswith("X "):
-                stats["harness-error"] += 1
-                continue
-            parts = parse(l)
-            if "M" in parts and "O" in parts:
-                scen.append(parts["M"])
-                obs.append(parts["O"])
-                fam.append(parts.get("F", "?"))
-        evaluations += len(scen)
-        # the property itself, evaluated by the Lean judge on the disk the real code left behind
-        verdicts = ctx.driver("judge", [m + " obs=" + o for m, o in zip(scen, obs)])
-        nfail = 0
-        for m, o, v in zip(scen, obs, verdicts):
-            if v != "ok":
-                nfail += 1
-                clause = v.split(" ")[1] if v.startswith("fail ") else v
-                ctx.finding(f"C11:{clause}", f"real file manager violates the property: {v}",
-                            {"scenario": m, "observed": o, "verdict": v,
-                             "replay_cmd": "harness/cmd/c11 -replay '<scenario>'"})
-        # correspondence: the Lean model on the same scenario
-        outs = ctx.driver("model", scen)
-        for m, o, out, f in zip(scen, obs, outs, fam):
-            if strip_obs(o) != out:
-                diffs += 1
-                if diffs <= 3:
-                    ctx.broken(f"model and implementation disagree on [{m}]: impl {strip_obs(o)} / model {out}",
-                               replay={"scenario": m, "impl": o, "model": out})
-            else:
-                validated += 1
-            family, cls = (f.split("/", 1) + ["?"])[:2]
-            families[family] += 1
-            classes[cls] += 1
-            for so in o.split(";"):
-                outcomes[so.split("|", 1)[0]] += 1
-            if m not in distinct:
-                distinct.add(m)
-                if "fail|" in o or "crash|" in o:
-                    nontrivial.add(m)
-        if len(samples) < 4 and scen:
-            samples += [scen[0] + " obs=" + obs[0], scen[-1] + " obs=" + obs[-1]]
-        if nfail > 20 or diffs > 50:
-            stop = True     # a broken tree: enough evidence, do not run for minutes
+    ran_any = False
+    with concurrent.futures.ThreadPoolExecutor(max_workers=par) as ex:
+        pending = [ex.submit(run_chunk, ctx, c) for c in chunks]
+        for fut in pending:
+            r = fut.result()
+            ran_any = ran_any or r["ran"]
+            for k in ("evaluations", "validated", "diffs", "nfail", "harness_errors"):
+                tot[k] += r[k]
+            classes.update(r["classes"])
+            families.update(r["families"])
+            outcomes.update(r["outcomes"])
+            distinct |= r["distinct"]
+            nontrivial |= r["nontrivial"]
+            gen_paths = max(gen_paths, r["gen_paths"])
+            if len(samples) < 4:
+                samples += r["samples"]
+            for sig, what, replay in r["findings"]:
+                ctx.finding(sig, what, replay)
+            if len([b for b in ctx.brokens if b["kind"] == "correspondence"]) < 3:
+                for what, replay in r["brokens"]:
+                    ctx.broken(what, replay=replay)
+            if tot["nfail"] > 20 or tot["diffs"] > 50:
+                for p in pending:       # a broken tree: enough evidence, do not run for minutes
+                    p.cancel()
+                break
     if not getattr(ctx, "harness_ok", False):
         ctx.broken("harness does not build against the current tree", detail="\n".join(ctx.build_errors))
-    elif evaluations == 0:
+    elif not ran_any or tot["evaluations"] == 0:
         ctx.broken("harness produced no scenario")
-    if stats["harness-error"]:
-        ctx.broken(f"{stats['harness-error']} scenarios could not be set up on disk (harness error)")
+    if tot["harness_errors"]:
+        ctx.broken(f"{tot['harness_errors']} scenarios could not be set up on disk (harness error)")
 
     ctx.finish({
-        "evaluations": evaluations,
+        "evaluations": tot["evaluations"],
         "distinct_nontrivial": len(nontrivial),
         "rule": "scenario = initial disk + start-up + 3 file sets (+ restarts/retries) with a fault schedule, run on the real "
                 "ManagerImpl/ClearFolders over a real directory tree; non-trivial = distinct scenarios in which at least one "
                 "call failed or crashed (so that recovery is exercised)",
         "samples": samples[:4],
-        "traces_validated_against_impl": validated,
-        "correspondence_diffs": diffs,
+        "traces_validated_against_impl": tot["validated"],
+        "correspondence_diffs": tot["diffs"],
+        "judge_failures": tot["nfail"],
         "distinct_cases": len(distinct),
         "fault_class_histogram": dict(classes.most_common()),
         "family_histogram": dict(families),
@@ -118,6 +164,9 @@ def run(ctx):
         "a Remove that answers ENOENT means the file is absent (injected as: somebody else removed it)",
         "(*os.File).Close does not fail (it is not part of OSFileManager and cannot be injected)",
         "umask 022; only regular files directly inside the five managed folders are considered",
+        "bootstrap files (ignoreFilePaths) that start-up keeps and that no later set contains may stay: the statement "
+        "excepts them at start-up",
     ], trusted=[
-        "harness/c11 FaultFS: maps /etc/nginx/... into a scratch root, delegates to the repository's StdLibOSFileManager",
+        "harness/c11 FaultFS: maps /etc/nginx/... into a scratch root under /verif/work/tmp, delegates to the "
+        "repository's StdLibOSFileManager",
     ])
